@@ -2,7 +2,7 @@
 # usage: with_patch.sh <patch file> <command...>
 # Applies the patch to /repo's working tree, runs the command, and always restores /repo.
 set -u
-patch="$1"; shift
+patch="$(realpath "$1")"; shift
 cd /repo || exit 3
 if [ -n "$(git status --porcelain --untracked-files=no)" ]; then echo "with_patch: /repo working tree not clean" >&2; exit 3; fi
 if ! git apply "$patch"; then echo "with_patch: patch does not apply" >&2; git checkout -- . ; exit 3; fi
